@@ -164,14 +164,14 @@ type OpKind byte
 
 // Operation kinds. R0..R3 are long rep matches, S the one-byte short rep.
 const (
-	OpLit OpKind = 'L'
-	OpMatch      = 'M'
-	OpRep0       = '0'
-	OpRep1       = '1'
-	OpRep2       = '2'
-	OpRep3       = '3'
-	OpShort      = 'S'
-	OpEos        = 'E'
+	OpLit   OpKind = 'L'
+	OpMatch        = 'M'
+	OpRep0         = '0'
+	OpRep1         = '1'
+	OpRep2         = '2'
+	OpRep3         = '3'
+	OpShort        = 'S'
+	OpEos          = 'E'
 )
 
 // Op is one LZMA operation. Dist is the real distance (>=1) for M and the
